@@ -44,7 +44,10 @@ EXPLANATION = (
     "run-time Registry / InstMgr look names up through the library's own copy of PrettyTmpName() (and the ToLower / ToUpper helpers "
     "both use): the clang flow graphs of the copies are bisimilar - same canonical statements in corresponding blocks, same "
     "branching, loops where the other loops; variable names, conversions and buffer-bound constants are not compared - so a key "
-    "written by the generator is the key the run time asks for.")
+    "written by the generator is the key the run time asks for. "
+    "(R7) every path through TYPEprint_descriptions creates the type's descriptor (TYPEprint_new / TYPEPrint) unless it has excluded "
+    "enumerations and aggregates; SCOPEPrint stores referents that are select or enumeration types again after the selects of the pass "
+    "have been printed (their descriptors only exist from then on).")
 
 PRED_PARAM = {"optional": "VARget_optional", "unique": "VARget_unique", "abstractEntity": "ENTITYget_abstract", "extMapping": "externMap"}
 KIND_PREDS = ("VARget_inverse", "VARis_derived", "VARis_type_shifter")
@@ -642,7 +645,83 @@ def r6_key_helpers_agree(prog, res):
         res.broke("R6: PrettyTmpName is no longer used by Registry::Find* and the generator; the KEY_HELPERS table is stale")
 
 
+def r7_every_named_type_described(prog, res):
+    """Every named type of the schema gets a type descriptor: attributes name it as their domain and the registry finds it by name.
+    TYPEprint_descriptions() is called once per type that is not a select; every path through it must call TYPEprint_new (directly,
+    or through TYPEPrint) unless the path has established that the type is neither an enumeration nor an aggregate (false edges of both
+    tests).  Before fixes a1a96f1a / 8e8749c0 a renamed enumeration (TYPE tint = colour) and a named aggregate of aggregates returned
+    without one: the descriptor pointer stayed null, the attribute's domain was null, and reading a conforming instance crashed."""
+    f = prog.one("TYPEprint_descriptions")
+    if f is None or f.cfg is None:
+        res.broke("anchor vanished: TYPEprint_descriptions")
+        return
+    cfg = f.cfg
+    creators = {c["i"] for c in f.calls() if (c.get("fn") or "") in ("TYPEprint_new", "TYPEPrint")}
+    if not creators:
+        res.broke("R7: TYPEprint_descriptions no longer calls TYPEprint_new / TYPEPrint")
+        return
+
+    def test_kind(b):
+        tc = cfg.blocks[b].get("tc")
+        nd = f.nodes.get(tc) if tc is not None else None
+        if nd is None:
+            return None
+        txt = expr_str(nd)
+        if any(y["k"] == "Call" and (y.get("fn") or "") == "isAggregateType" for y in walk(nd)):
+            return "aggr"
+        if "enumeration_" in txt or any((y.get("m") or "") == "TYPEis_enumeration" or (y.get("mo") or "") == "TYPEis_enumeration" for y in walk(nd)):
+            return "enum"
+        return None
+    seen = set()
+    work = [(cfg.entry, frozenset())]
+    bad = None
+    while work and bad is None:
+        b, fl = work.pop()
+        if (b, fl) in seen:
+            continue
+        seen.add((b, fl))
+        blk = cfg.blocks[b]
+        if any(e in creators or any(y["i"] in creators for y in walk(f.nodes[e])) for e in blk["e"] if e in f.nodes):
+            continue
+        if b == cfg.exit:
+            if not ({"enum", "aggr"} <= fl):
+                bad = fl
+            continue
+        k = test_kind(b)
+        ss = blk["s"]
+        for j, s2 in enumerate(ss):
+            if s2 is None or s2 < 0:
+                continue
+            fl2 = fl
+            if k and len(ss) == 2 and j == 1:
+                fl2 = fl | {k}
+            work.append((s2, fl2))
+    res.add("R7.every_named_type_described", "R7|src/exp2cxx/classes_type.c|TYPEprint_descriptions|descriptor", f.where(), bad is None,
+            "every path that leaves TYPEprint_descriptions without creating a descriptor has found the type to be neither an enumeration nor an "
+            "aggregate (selects are described by their own printer)" if bad is None else
+            "a path through TYPEprint_descriptions returns without TYPEprint_new / TYPEPrint although it has not excluded %s: such a type has no "
+            "descriptor - it is missing from the registry and attributes of that type have a null domain"
+            % " and ".join(sorted({"enum": "an enumeration (renamed enumerations)", "aggr": "an aggregate (named aggregates of aggregates)"}[x]
+                                  for x in {"enum", "aggr"} - set(bad))))
+    # referents that are created late (select / enumeration descriptors are made by their init_ functions) are stored again afterwards
+    g = next((x for x in prog.fn("SCOPEPrint") if x.component == "exp2cxx"), None)
+    if g is None or g.cfg is None:
+        res.broke("anchor vanished: exp2cxx SCOPEPrint")
+        return
+    sel = [c for c in g.calls() if (c.get("fn") or "") == "TYPEselect_print"]
+    late = [c for c in g.calls() if (c.get("fn") or "") == "TYPEprint_late_referent"]
+    ok = bool(sel) and bool(late) and all(g.cfg.reaches(g.cfg.locate(s_), g.cfg.locate(late[0])) for s_ in sel) and \
+        not any(g.cfg.reaches(g.cfg.locate(late[0]), g.cfg.locate(s_)) for s_ in sel)
+    h = prog.one("TYPEprint_late_referent")
+    emits = h is not None and any(y["k"] == "Str" and "->ReferentType(" in (y.get("s") or "") for y in h.walk())
+    res.add("R7.late_referents_stored_again", "R7|src/exp2cxx/classes_wrapper.cc|SCOPEPrint|late-referent", g.where(late[0]) if late else g.where(), ok and emits,
+            "referents that are select or enumeration types are stored again after every select of the pass has been printed" if ok and emits else
+            "SCOPEPrint no longer stores the referents of the pass's types again after the selects are printed: `TYPE picks = LIST OF pick` keeps "
+            "the null pointer it read before init_SdaiPick() created the select's descriptor, and reading such an aggregate dereferences it")
+
+
 def run(prog, res, tier):
+    r7_every_named_type_described(prog, res)
     r6_key_helpers_agree(prog, res)
     r5_referent_not_self(prog, res)
     r4_part_head(prog, res)
